@@ -39,7 +39,8 @@ REQUIRED_REACH = ["mixed-dirichlet-neumann", "pure-dirichlet", "boundary-project
                   "two-splits-on-one-assembled-system", "complex-valued-projection", "complex-valued-boundary-projection",
                   "solution-of-small-magnitude", "straight-second-order-mesh", "projection-of-callable", "model-forms:poisson",
                   "model-forms:lame-parameters", "model-forms:plane-stress", "mesh-in-other-length-units",
-                  "projection-on-mesh-in-other-length-units", "boundary-parts-by-default-side-names"]
+                  "projection-on-mesh-in-other-length-units", "boundary-parts-by-default-side-names",
+                  "boundary-parts-by-region-predicates", "dirichlet-set-as-union-of-views"]
 
 # (record name, degree of the manufactured solution)
 COMPLETE = {
@@ -219,6 +220,27 @@ def scalar_patch(ctx, k, kind):
                 Nfac = np.concatenate([sides[n_] for n_ in Nn]).astype(np.int32) if Nn else np.zeros(0, dtype=np.int32)
                 Dsel, Nsel = (Dn if Dn else Dfac), (Nn if Nn else Nfac)
                 ctx.reached("boundary-parts-by-default-side-names")
+    union_views = False
+    if isinstance(Dsel, list) and len(Dsel) >= 2 and rng.random() < 0.5:
+        union_views = True                      # the Dirichlet set as get_dofs(a) | get_dofs(b) | ... (see below)
+    if not isinstance(Dsel, list) and not isinstance(Nsel, list) and d >= 2 and kind != "wedge" and rng.random() < 0.3:
+        # the two boundary parts named by REGION predicates on facet midpoints (x0 beyond / before a value between two
+        # midpoints): with_boundaries tags boundary facets only; the exact data integrated over the harness' own split
+        Pm, Fm = np.asarray(mesh.p), np.asarray(mesh.facets)
+        bfm = np.asarray(mesh.boundary_facets())
+        nvf = Fm.shape[0]
+        mx = Pm[0][Fm[:, bfm]].mean(axis=0)
+        vals = np.unique(mx)
+        if vals.size >= 2:
+            j_ = int(rng.integers(1, vals.size))
+            cut = 0.5 * (float(vals[j_ - 1]) + float(vals[j_]))
+            if vals[j_ - 1] < cut < vals[j_]:
+                tagged = mesh.with_boundaries({"nat": lambda x: x[0] > cut, "ess": lambda x: x[0] < cut})
+                Nfac, Dfac = bfm[mx > cut].astype(np.int32), bfm[mx < cut].astype(np.int32)
+                mesh = tagged
+                basis = skfem.CellBasis(mesh, elem, intorder=order)
+                Dsel, Nsel = ["ess"], ["nat"]
+                ctx.reached("boundary-parts-by-region-predicates")
     if Nfac.size:
         if d == 1:
             # 1-D: boundary "integral" is a point evaluation with outward normal
@@ -242,6 +264,11 @@ def scalar_patch(ctx, k, kind):
     monitor = "patch-test-reaction-diffusion" if reaction else "patch-test-poisson"
     if Dfac.size:
         Dd = basis.get_dofs(Dsel)
+        if union_views:
+            import functools
+            import operator
+            Dd = functools.reduce(operator.or_, [basis.get_dofs(n_) for n_ in Dsel])
+            ctx.reached("dirichlet-set-as-union-of-views")
         # the stated pipeline: the DOFs returned by the library are constrained to the *boundary L2 projection* of the
         # data (a stray DOF in the returned set has no support on the Dirichlet facets and makes this projection fail or
         # wrong, whereas prescribing exact nodal values at whatever is returned would mask it)
